@@ -1,0 +1,16 @@
+"""Verification trace hooks.
+
+Inactive unless the environment variable SPP_VERIF_TRACE is "1" when the package is imported.
+Hook sites call ``emit(event, **fields)`` with plain Python objects; a verification harness installs ``sink``
+to receive them. Nothing here changes library behaviour.
+"""
+import os
+
+ON = os.environ.get("SPP_VERIF_TRACE") == "1"
+sink = None
+
+
+def emit(event, **fields):
+    """Forward one event to the installed sink (no-op when no sink is installed)."""
+    if sink is not None:
+        sink(event, fields)
